@@ -28,7 +28,10 @@ Of(id) == CHOOSE o \in open : o.id = id
 
 TInit == l = 1 /\ open = {} /\ TLCSet(1, 1)
 TReset == IsEvent("Reset") /\ open' = {}                         \* next group (all calls of a group have ended)
+\* (alone2: the same call alone on a server generated from the same schema with the methods of every service
+\* declared in the opposite order - what a route demands does not depend on the routes declared around it)
 TBegin == /\ IsEvent("Begin") /\ Tr[l].id \notin Ids
+          /\ ("alone2" \in DOMAIN Tr[l] => Tr[l].alone2 = Tr[l].alone)
           /\ open' = open \cup {[id |-> Tr[l].id, alone |-> Tr[l].alone, stage |-> "begun"]}
 Advance(id, st) == open' = (open \ {Of(id)}) \cup {[Of(id) EXCEPT !.stage = st]}
 TSent == /\ IsEvent("Sent") /\ Tr[l].id \in Ids
